@@ -857,10 +857,13 @@ cannot initialise file actions: %s", STRERR);
 	}
 
 	/* spawn the actual beef process */
-	if (posix_spawn(&chld, *args, &fa, NULL, deconst(args), env) < 0) {
+	if ((errno = posix_spawn(
+		     &chld, *args, &fa, NULL, deconst(args), env)) != 0) {
+		/* posix_spawn() returns the error number */
 		ECHS_ERR_LOG("cannot spawn `%s': %s", *args, STRERR);
 		rc = -1;
 		t->xc = 127;
+		chld = -1;
 	} else {
 		ECHS_NOTI_LOG("starting `%s' -> process %d", t->t->cmd, chld);
 		/* assume success */
